@@ -724,3 +724,39 @@ Definition eh_obs (keys : list str) (e : environ) : list out :=
   ++ map (fun k => OBool (match eh_get_key e k with Some _ => true | None => false end)) keys.
 Definition eh_run (keys : list str) (e : environ) (ops : list hop) : list (list out) :=
   map (fun o => let '(e', rs) := eh_step e o in out_of_res rs :: eh_obs keys e') ops.
+
+(* ================================================================== equality, copies, pickling (as values) *)
+Fixpoint rows_eqb (a b : list str) : bool :=
+  match a, b with
+  | [], [] => true
+  | x :: a', y :: b' => list_eqb x y && rows_eqb a' b'
+  | _, _ => false
+  end.
+(* dict.__eq__ (MultiDict, ImmutableMultiDict): same number of keys, every key of the left in the right with an
+   equal row; the key order is irrelevant *)
+Definition md_eqb (d1 d2 : mdict) : bool :=
+  Nat.eqb (length d1) (length d2) &&
+  forallb (fun kv => match d_get (fst kv) d2 with Some l => rows_eqb (snd kv) l | None => false end) d1.
+(* CombinedMultiDict inherits dict.__eq__, which looks at its own, always empty, dict storage: any two compare equal *)
+Definition cmd_eqb (c1 c2 : cmd) : bool := true.
+
+(* the three ways a MultiDict is rebuilt: copy() / MultiDict(md) row by row; deepcopy() through to_dict(flat=False) and
+   the constructor's mapping branch; ImmutableMultiDict.__reduce_ex__ (pickle, copy.deepcopy) through its pairs *)
+Definition md_copy (d : mdict) : mdict := md_init (Some (AMulti d)).
+Definition md_deepcopy (d : mdict) : mdict := md_init (Some (ADict (map (fun kv => (fst kv, Many (snd kv))) d))).
+Definition imd_reduce (d : mdict) : mdict := md_init (Some (APairs (md_items_multi d))).
+(* MultiDict.__getstate__ / __setstate__: dict(self.lists()), then clear() and dict.update(state) *)
+Definition md_getstate (d : mdict) : mdict := d.
+Definition md_setstate (old state : mdict) : mdict := fold_left (fun acc kv => d_set (fst kv) (snd kv) acc) state [].
+
+(* Headers.__eq__: the sets of (lower-cased key, value) pairs are equal *)
+Definition pair_mem (p : str * str) (l : list (str * str)) : bool :=
+  existsb (fun q => list_eqb (fst p) (fst q) && list_eqb (snd p) (snd q)) l.
+Definition hd_lowered (h : headers) : list (str * str) := map (fun kv => (lower (fst kv), snd kv)) h.
+Definition hd_eqb (h1 h2 : headers) : bool :=
+  forallb (fun p => pair_mem p (hd_lowered h2)) (hd_lowered h1) && forallb (fun p => pair_mem p (hd_lowered h1)) (hd_lowered h2).
+Definition hd_copy (h : headers) : hstat := hd_init (Some (HAHeaders h)).
+
+(* HeaderSet: collections.abc.Set.__eq__: equal len() and every item of the left is in the right *)
+Definition hs_eqb (s1 s2 : hset) : bool :=
+  Nat.eqb (hs_len s1) (hs_len s2) && forallb (fun x => hs_contains x (hs_set s2)) (hs_headers s1).
